@@ -941,10 +941,16 @@ func c07r7(c *Ctx) {
 			continue
 		}
 		for _, rc := range f.CallsTo(false, rs...) {
-			if len(rc.Expr.Args) != 1 {
-				continue
+			// the list of ids handed to the reservation step (its only operand, or the list among several:
+			// `updateReservations(nil, ids)`)
+			var ids types.Object
+			for _, a := range rc.Expr.Args {
+				if o := f.ObjOf(a); o != nil {
+					if _, isSlice := o.Type().Underlying().(*types.Slice); isSlice {
+						ids = o
+					}
+				}
 			}
-			ids := f.ObjOf(rc.Expr.Args[0])
 			if ids == nil {
 				continue // a literal list is reserved where it is built
 			}
@@ -954,8 +960,13 @@ func c07r7(c *Ctx) {
 			isLock := func(n *cfgx.Node) bool {
 				for _, call := range f.NodeCalls(n) {
 					for _, r := range rs {
-						if call.Fn == r && len(call.Expr.Args) == 1 && f.ObjOf(call.Expr.Args[0]) == ids {
-							return true
+						if call.Fn != r {
+							continue
+						}
+						for _, a := range call.Expr.Args {
+							if f.ObjOf(a) == ids {
+								return true
+							}
 						}
 					}
 				}
